@@ -266,7 +266,7 @@ func VerifC05Truncate() {
 	var e vCrashExpect
 	l := vBuildLog(opts, n, &e)
 	t := vNondetInt64("trunc")
-	vAssume(t >= 1)
+	vAssume(t >= 0) // 0: nothing was committed yet, the whole log goes
 	vAssume(t <= int64(n))
 	t = vConcretize64(t)
 	l.SetHighWatermark(t - 1)
